@@ -1,0 +1,19 @@
+//go:build verif
+
+// Machine-checked contracts for govc (see /verif/DESIGN.md). Comments only;
+// compiled only with the build tag "verif".
+
+package errorhandlers
+
+// C12 / C01: "a redirect to the handler's status code", "a failure never yields a success status",
+// "no error handler can turn a failed pipeline into a positive answer": the status a redirect
+// error handler answers with is a redirection status, whatever the configuration says (the JSON
+// schema restricts the value for the configuration file only, not for environment variables).
+//@ func newRedirectErrorHandler
+//@   props C12 C01
+//@   ensures ret1 == nil ==> ret0 != nil && ret0.code >= 300 && ret0.code <= 399
+
+// the error recorded for the request carries exactly that status
+//@ func (*redirectErrorHandler).Execute
+//@   props C12 C01
+//@   assert at store Code#1: stored == eh.code
